@@ -70,16 +70,17 @@ def words_for(ty, n, S, c, r, pad=4):
 def gen_vectors(ctx):
     rng, tier = ctx["rng"], ctx["tier"]
     vecs = []   # (ty, ws, kind)
-    maxlen_all = 3 if tier == "quick" else 5
+    maxlen_all = 3 if tier == "quick" else 4
     for ty, (lo, hi, sk) in T.ITYPES.items():
-        for n in range(0, maxlen_all + 1):
+        top = maxlen_all + (1 if tier == "thorough" and ty in ("u8", "i8", "u64") else 0)
+        for n in range(0, top + 1):
             mw = hi // n if n and n <= hi else 0
             alpha = sorted({0, 1, 2, 3, max(mw - 1, 0), mw, mw + 1} | ({-1} if lo < 0 else set()))
             alpha = [a for a in alpha if lo <= a <= hi]
             for v in itertools.product(alpha, repeat=n):
                 vecs.append((ty, list(v), "exhaustive"))
     if tier == "thorough":
-        for ty in ("u8", "i8"):
+        for ty in ("u8",):
             lo, hi, sk = T.ITYPES[ty]
             n = 6
             mw = hi // n
@@ -334,10 +335,10 @@ def correspond(ctx):
     return {
         "evaluations": len(vecs) + len(flines), "distinct_nontrivial": len(distinct),
         "rule": "weight vectors: exhaustively every vector of length <= %d over {0,1,2,3,MAX/n-1,MAX/n,MAX/n+1,-1} for each of the 11 "
-                "integer types (plus length 6 for u8/i8 at thorough), seeded random vectors up to length 257 (10^4 at thorough) with "
+                "integer types (thorough: length <= 4 for all types, 5 for u8/i8/u64, 6 for u8), seeded random vectors up to length 257 (10^4 at thorough) with "
                 "adversarial magnitude mixes; each accepted vector is sampled on crafted words hitting chosen (column,threshold) pairs "
                 "(all pairs when n*sum <= 64) and lattice/random words; float vectors through the direct oracle. distinct = distinct (type, vector)"
-                % (3 if ctx["tier"] == "quick" else 5),
+                % (3 if ctx["tier"] == "quick" else 4),
         "samples": [lines[5], lines[len(lines) // 2], lines[-1][:300], flines[3]],
         "mismatches": mismatches, "oracle_failures": oracle_failures,
         "extra": {"outcome_distribution": outcome, "enumerated_column_threshold_pairs": enum_pairs,
